@@ -98,4 +98,12 @@ SYMS += [
         subst=[(r"gil::at_c<0>\(it\)", "it0"), (r"gil::at_c<0>\(\*this\)", "this0")],
         doc="planar_pixel_iterator::equal: compares the channel-0 pointers"),
 ]
+# detail::homogeneous_color_base<Element, Layout, n>(Ptr const& ptr, diff): which channel pointer of `ptr` each member reference is bound to
+# (the constructor behind memunit_advanced_ref for planar iterators: view(x,y), planar it[d], loc(dx,dy), loc[point], loc[cached_location])
+CB = "boost/gil/color_base.hpp"
+for n in (2, 3, 4, 5):
+    for k in range(n):
+        SYMS.append(Sym(CB, r"struct homogeneous_color_base<Element, Layout, %d>.*?v%d_\(\*memunit_advanced\(semantic_at_c<(\d+)>\(ptr\), diff\)\)" % (n, k),
+                        "hcb_ref_plane_%d_%d" % (n, k), [], ret="int", expr=True,
+                        doc="homogeneous_color_base<.,.,%d>(ptr, diff): member v%d_ is bound to channel pointer number ..." % (n, k)))
 NAMESPACE = "GilVerif.Gen.C03"
